@@ -1,4 +1,5 @@
 mod common;
+mod c02;
 mod c06;
 mod c09;
 mod c10;
@@ -63,6 +64,7 @@ fn main() {
         }
     }));
     let rep = match prop.as_str() {
+        "c02" => c02::run(&opts),
         "c06" => c06::run(&opts),
         "c09" => c09::run(&opts),
         "c10" => c10::run(&opts),
